@@ -206,13 +206,15 @@ SPECS["C07"] = {
 SPECS["C20"] = {
     "level": "model_checking",
     "groups": [dict(LIBGO, entries=[
-        {"name": "VerifC20_ShutdownDrains", "native": False, "quick": {"params": [0, 1, 2, 3, 4, 5], "bound": 2, "flags": ["-preempt", "2", "-par", "2"], "procs": 6},
+        {"name": "VerifC20_ShutdownDrains", "native": False, "quick": {"params": [0, 4], "bound": 2, "flags": ["-preempt", "2", "-par", "4"], "procs": 2},
          "thorough": {"params": [0, 1, 2, 3, 4, 5], "bound": 3, "flags": ["-preempt", "2", "-par", "2"], "procs": 6},
+         "expect_reach": ["end", "racing-request", "burst-exceeds-queue"]},
+        {"name": "VerifC20_ShutdownDrains", "native": False, "tiers": ["quick"], "quick": {"params": [1, 2, 3, 5], "bound": 2, "flags": ["-preempt", "1"], "procs": 4},
          "expect_reach": ["end", "racing-request", "burst-exceeds-queue"]},
     ])],
     "level_text": "Bounded symbolic execution with threads of the real fNatsServer (Serve, handler, worker, processFrame, Stop, drainNatsMessages) with a counting processor whose handler takes an arbitrary time, for workers in {1,2} x queue length in {0,1,2}, with a handler that is fast or lets 10 s of virtual time pass: r requests received before Stop is called, optionally one racing with Stop and one arriving after Stop returned: every request received before Stop is processed exactly once and its reply is published before Serve returns; the late one is not processed; the racing one at most once and answered iff processed; Stop and Serve return (no deadlock) also when the burst exceeds queue+workers. Outside: real nats.go internals.",
     "level_note": "Trusted: go/ssa, gose interpreter and scheduler model, z3. " + NATS_NOTE + SCHED_NOTE,
-    "bounds": {"quick": "r <= 2 requests before Stop, delay bound 2", "thorough": "r <= 3"},
+    "bounds": {"quick": "r <= 2 requests before Stop; delay bound 2 for (workers, queue) = (1,0) and (2,1), delay bound 1 for the other four configurations", "thorough": "r <= 3, delay bound 2 for all six configurations"},
     "assumptions": ["nats.go Drain/Flush/Barrier contract as modelled", "worker count >= 1"],
 }
 
@@ -338,6 +340,8 @@ SPECS["C03"] = {
         {"program": "c02_basic", "pkg": "c02basic", "entries": [
             {"name": "VerifC03_Echo", "quick": {"params": [0], "bound": 1}, "thorough": {"params": [0], "bound": 2, "flags": ["-par", "4"]},
              "expect_reach": ["end", "value", "declared", "undeclared", "app-exception", "nil-value"]},
+            {"name": "VerifC03_EchoCompact", "quick": {"params": [0], "bound": 1}, "thorough": {"params": [0], "bound": 2, "flags": ["-par", "4"]},
+             "expect_reach": ["end", "value", "declared", "undeclared", "app-exception", "nil-value"]},
             {"name": "VerifC03_VoidThrows", "quick": {"params": [0], "bound": 1}, "thorough": {"params": [0], "bound": 2}, "expect_reach": ["end", "void-ok", "void-declared-1", "void-declared-2"]},
             {"name": "VerifC03_PingFire", "quick": {"params": [0, 1], "bound": 1}, "thorough": {"params": [0, 1], "bound": 2}, "expect_reach": ["end", "ping", "fire"]},
             {"name": "VerifC03_ConcurrentCalls", "native": False, "flags": ["-preempt", "1"], "quick": {"params": [0]}, "thorough": {"params": [0], "flags": ["-preempt", "2"]}},
@@ -361,7 +365,7 @@ RACE_NOTE = ("Every entry that runs goroutines also runs the engine's happens-be
 
 _MORE = {
     "C01": " Added: (e) two goroutines calling through one FStandardClient over a transport that looks at the payload only after a scheduling point (each caller gets the answer to its own symbolic argument, handler sees each once); the two callers of (b) may use clones of a context implemented OUTSIDE the package (generic branch of Clone: distinct op ids), and responses may arrive one per read or coalesced into one segment.",
-    "C03": " Added: methods whose names differ only in capitalisation (fetchUrl / fetchURL), a method whose argument ids are not in declaration order (route(2: to, 1: sender)), a typedef-of-enum argument and return type, and two goroutines calling through one generated client over a transport that reads the frame late (each caller observes the value for its own argument).",
+    "C03": " Added: the Echo entry again over thrift's COMPACT protocol (integers from -70..70 so that one- and two-byte varints of both signs occur; the JSON protocol needs library internals the engine does not interpret and stays outside); methods whose names differ only in capitalisation (fetchUrl / fetchURL), a method whose argument ids are not in declaration order (route(2: to, 1: sender)), a typedef-of-enum argument and return type, and two goroutines calling through one generated client over a transport that reads the frame late (each caller observes the value for its own argument).",
     "C04": " Added: the stream reader is also driven through a transport that hands out 1..3 bytes per Read (same map, same rest); a header block written by another implementation (any user headers, op id mandatory, correlation id and timeout optional) becomes a context whose request headers are exactly the wire map and whose response headers echo exactly op id (+ cid iff present); the response direction leaves request headers untouched.",
     "C05": " Added: the adapter transport's read loop on an arbitrary socket stream; fNatsServer.processFrame and a subscriber callback of the generated shape on arbitrary frames; a well-formed ~110-byte request / publish frame with an arbitrary 4-byte window at every (second) offset through server -> processor -> processor function and through the subscriber callback, each followed by a well-formed message that must still be served; the HTTP handler and HTTP client transport on arbitrary bodies, and a two-way FStandardClient.Call over HTTP whose peer answers with an arbitrary decoded body incl. the empty frame; a reply or error reply that cannot be written into a bounded output buffer (any limit 1..250) leaves the processor usable (no leaked write mutex).",
     "C06": " Added: frames may be coalesced into one read segment; NATS client transport: a second request on the SAME FContext while the first is in flight is rejected and must not disturb the first, whose response (arriving afterwards) still completes it (timers fire only when nothing else can run).",
@@ -392,9 +396,11 @@ SPECS["C10"] = {
         {"name": "VerifC10_Enum", "quick": {"params": [0, 1], "procs": 2}, "thorough": {"params": [0, 1, 2], "procs": 3}},
         {"name": "VerifC10_Service", "quick": {"params": [0], "procs": 1}, "thorough": {"params": [0, 1, 2, 3, 4, 5], "procs": 6}},
         {"name": "VerifC10_Scope", "quick": {"params": [0, 3, 4, 5], "procs": 4}, "thorough": {"params": [0, 1, 2, 3, 4, 5], "procs": 6}},
+        {"name": "VerifC10_Endings", "quick": {"params": [0, 1, 2], "procs": 3}, "thorough": {"params": [0, 1, 2], "procs": 3}},
+        {"name": "VerifC10_Includes", "native": False, "quick": {"params": [0, 1, 2], "procs": 1}, "thorough": {"params": [0, 1, 2, 3], "procs": 4, "timeout": 4000}},
         {"name": "VerifC10_Identifier", "quick": {"params": [0, 2], "bound": 0, "procs": 2}, "thorough": {"params": [0, 1, 2, 3, 4, 5, 6], "bound": 1, "procs": 7, "timeout": 6000}},
     ])],
-    "level_text": "BOUNDED. The real generated PEG parser (Parse of compiler/parser/grammar.peg.go: the pigeon matcher, its memoisation and every semantic action, executed from go/ssa) on programs RENDERED by the harness from a small model, with the lexical style and identifier shapes chosen by the engine; z3 decides the branches on symbolic characters. For every rendered program parsing must succeed and the returned model must be exactly the rendered one: (1) a type name of 22 shapes (plain, qualified, underscores, and names that START WITH a keyword: stringy, i32x, booleanish, binaryData, doubles, byteBuf, i16s, i64_t, mapper, listing, settings, voidish, requiredThing, optionalThing, onewayTicket, throwsIt, extendsIt, prefixed) at 8 sites (field, list / map element, typedef target, constant type, return type, argument types incl. optional, throws, scope operation); (2) struct / union / exception with three fields: ids from 3 sets, every rotation of requiredness and of six field types (scalars, list, map, set, qualified name), union members forced optional; (3) enums of 2..4 values with every explicit / implicit mask and explicit numbers from {0,1,5,40}: Thrift's implicit numbering; (4) services with extends in {none, Base, inc.Base}, 1..2 methods, every rotation of {oneway void, void, typed}, 0..2 arguments, 0..2 exceptions (made optional by the parser); (5) scopes with six prefixes (none, literals, variables incl. one-letter and underscore names, a '-' in a literal part) and 1..2 operations; (6) EVERY identifier made of a fixed prefix (none, X, str, i3, voi, requir, onewa) plus 1 (thorough 2) arbitrary identifier characters (symbolic bytes), declared as a struct and used as a field type. Lexical variation in every program: the separator after each item cycles through ',' ';' nothing from a chosen start, four styles of gap / comment ('', '// c', '# c', '/* c */'). Outside: include resolution and caching (file I/O), validate() (C11), constants' values, annotations, doc comments, the JSON generator as a second view, programs larger than these, the inverse direction (texts that must be REJECTED).",
+    "level_text": "BOUNDED. The real generated PEG parser (Parse of compiler/parser/grammar.peg.go: the pigeon matcher, its memoisation and every semantic action, executed from go/ssa) on programs RENDERED by the harness from a small model, with the lexical style and identifier shapes chosen by the engine; z3 decides the branches on symbolic characters. For every rendered program parsing must succeed and the returned model must be exactly the rendered one: (1) a type name of 22 shapes (plain, qualified, underscores, and names that START WITH a keyword: stringy, i32x, booleanish, binaryData, doubles, byteBuf, i16s, i64_t, mapper, listing, settings, voidish, requiredThing, optionalThing, onewayTicket, throwsIt, extendsIt, prefixed) at 8 sites (field, list / map element, typedef target, constant type, return type, argument types incl. optional, throws, scope operation); (2) struct / union / exception with three fields: ids from 3 sets, every rotation of requiredness and of six field types (scalars, list, map, set, qualified name), union members forced optional; (3) enums of 2..4 values with every explicit / implicit mask and explicit numbers from {0,1,5,40}: Thrift's implicit numbering; (4) services with extends in {none, Base, inc.Base}, 1..2 methods, every rotation of {oneway void, void, typed}, 0..2 arguments, 0..2 exceptions (made optional by the parser); (5) scopes with six prefixes (none, literals, variables incl. one-letter and underscore names, a '-' in a literal part) and 1..2 operations; (6) EVERY identifier made of a fixed prefix (none, X, str, i3, voi, requir, onewa) plus 1 (thorough 2) arbitrary identifier characters (symbolic bytes), declared as a struct and used as a field type. (7) statement terminators (newline, ';' on the same or a later line, with blanks or a comment) and file endings (newline, none, trailing blanks, inside a '//' or '#' comment) for namespace / typedef / const / struct / service statements; (8) include resolution and caching: the real parseFrugal on an in-memory file system (os.Open, File.Stat / Name / Close and ParseReader redirected to the harness) for a chain, a diamond and two DIFFERENT files with the same base name in different directories (thorough: with arbitrary one-letter base names, equal or not): every include resolves next to the including file, every file is read once, each program sees the declarations of the file it included. Lexical variation in every program: the separator after each item cycles through ',' ';' nothing from a chosen start, four styles of gap / comment ('', '// c', '# c', '/* c */'). Outside: validate() beyond what parseFrugal runs (C11), constants' values, annotations, doc comments, the JSON generator as a second view, programs larger than these, the inverse direction (texts that must be REJECTED).",
     "level_note": "Trusted: go/ssa, gose interpreter (regexp and unicode tables run from their real SSA), z3; the renderer in the harness is the oracle's source of truth.",
     "bounds": {"quick": "5 of the 22 type-name shapes (plain, stringy, voidish, requiredThing, onewayTicket), 2 of 18 struct rotations, enums of 2..3 values, one-method services without extends, 4 of 6 prefixes, identifiers with one symbolic character after 2 of the 7 prefixes", "thorough": "all shapes and rotations; identifiers with two symbolic characters after all 7 prefixes"},
     "assumptions": [],
@@ -406,6 +412,8 @@ SPECS["C19"] = {
     "level": "model_checking",
     "groups": [dict(HTMLGEN, entries=[
         {"name": "VerifC19_HTMLIndexOrder", "native": False, "quick": {"params": [0, 1]}, "thorough": {"params": [0, 1, 2]}, "expect_reach": ["end", "same-module-name-twice"]},
+    ]), dict(PARSER, entries=[
+        {"name": "VerifC19_ReferencedIncludes", "native": False, "flags": ["-all-map-orders"], "quick": {"params": [0, 1, 2, 3], "procs": 4}, "thorough": {"params": [0, 1, 2, 3], "procs": 4}},
     ])],
     # every `range` over a Go map in the compiler packages, computed from go/ssa at check time; a site that is
     # not listed here makes the check inconclusive (somebody has to decide whether its order can reach output)
@@ -418,7 +426,7 @@ SPECS["C19"] = {
             "compiler/parser/audit.go|(*github.com/Workiva/frugal/compiler/parser.Auditor).checkFields": "order of audit messages only, no generated text",
         },
     },
-    "level_text": "KERNEL SCOPE ONLY. The statement is a 2-safety property of whole compiler runs (repetitions, working directory, absolute locations, output directory, file-system order, goimports) and cannot be encoded. What is decided: the only way the ORDER OF A GO MAP can reach generated text. (1) From go/ssa of /repo's compiler packages the check computes every `range` over a map (today 5 sites in 4 functions) and is inconclusive when a site appears that is not in its list. (2) The one site whose order reaches output - the module list of the HTML index (transitiveIncludes: transitive includes collected in a map, appended in map order, sort.Sort by module name) - is executed twice by gose on include graphs of 2..3 (4) files whose module names are chosen from a set (so that files in different directories may share a name), with EVERY iteration order of every map explored independently in both executions (self-composition): both runs must list the modules in the same order. Outside (not claimed): everything else in the statement - cwd / path / output-directory independence, time stamps, goimports, the dart pubspec site (argued, not executed), run-to-run state of the globals package.",
+    "level_text": "KERNEL SCOPE ONLY. The statement is a 2-safety property of whole compiler runs (repetitions, working directory, absolute locations, output directory, file-system order, goimports) and cannot be encoded. What is decided: the only way the ORDER OF A GO MAP can reach generated text. (1) From go/ssa of /repo's compiler packages the check computes every `range` over a map (today 5 sites in 4 functions) and is inconclusive when a site appears that is not in its list. (2) The one site whose order reaches output - the module list of the HTML index (transitiveIncludes: transitive includes collected in a map, appended in map order, sort.Sort by module name) - is executed twice by gose on include graphs of 2..3 (4) files whose module names are chosen from a set (so that files in different directories may share a name), with EVERY iteration order of every map explored independently in both executions (self-composition): both runs must list the modules in the same order. (3) The functions that compute which includes a generated file imports (Scope / Service / Frugal.ReferencedIncludes, ReferencedScopeIncludes, ReferencedServiceIncludes, OrderedIncludes) are executed twice on a model with three includes referenced from scope operations and service methods (plain and as map key), with every range over every map - also the ones the functions create themselves - exploring all orders: both executions return the same sequence (today trivially, because none of them ranges over a map; the entry decides a change that makes one do so). Outside (not claimed): everything else in the statement - cwd / path / output-directory independence, time stamps, goimports, the dart pubspec site (argued, not executed), run-to-run state of the globals package.",
     "level_note": "Trusted: go/ssa, gose interpreter (map iteration orders are engine decisions), z3. sort.Sort is executed from its real SSA.",
     "bounds": {"quick": "include graphs of 2..3 files, 3 candidate module names, all map iteration orders in two executions", "thorough": "up to 4 files"},
     "assumptions": ["map iteration is the only order-nondeterminism of the listed functions (no goroutines, time or randomness: they are sequential pure functions)"],
